@@ -31,7 +31,7 @@ import numpy as np
 from mc.core import HarnessError
 
 import molli as ml
-from molli.chem import Atom, Element, AtomType, AtomStereo, AtomGeom, BondType, BondStereo, Molecule, ConformerEnsemble
+from molli.chem import Atom, Bond, Element, AtomType, AtomStereo, AtomGeom, BondType, BondStereo, Molecule, ConformerEnsemble
 from molli.storage.ukvfile import UKVFile
 
 LEVEL = "model_checking"
@@ -123,9 +123,16 @@ def base_weights(nc):
 # -------------------------------------------------------------------------------------------------
 # building an object of the grammar through the public API
 # -------------------------------------------------------------------------------------------------
-def build(A, kind, shape, over, seed, tag=None):
+def build(A, kind, shape, over, seed, tag=None, bonds=None):
     """kind: 'mol' | 'ens' | 'conf' (a Conformer view of an ensemble).  shape = (na, nb, nc).
-    over = {dimension: value name}.  Returns the object to store."""
+    over = {dimension: value name}.  bonds = explicit bond topology [[a1, a2, {field: value name}], ...]
+    (replaces the nb base bonds).  Returns the object to store.
+
+    The object is deliberately NOT built the way the decoders build theirs: the record-level fields
+    (name, charge, mult, attrib) and the atom fields are assigned AFTER construction (so that a
+    value a constructor might derive or default - charge 0 on an ion, mult 1 on a radical, name ''
+    - really is what the object holds), and bonds are explicit Bond objects handed to append_bond
+    (never connect())."""
     na, nb, nc = shape
     if "nc" in over:
         nc = A["nc"][over["nc"]]
@@ -134,24 +141,12 @@ def build(A, kind, shape, over, seed, tag=None):
     fc = nc - 1
     atoms = []
     for j in range(na):
-        kw = {}
         el = BASE_EL[j]
-        if j == fa:
-            for f in ATOM_FIELDS:
-                d = "atom." + f
-                if d in over:
-                    if f == "element":
-                        el = A[d][over[d]]
-                    else:
-                        kw[f] = _fresh(A[d][over[d]])
-        atoms.append(Atom(el, **kw))
-    mkw = {}
-    for f in ("name", "charge", "mult", "attrib"):
-        d = "mol." + f
-        if d in over:
-            mkw[f] = _fresh(A[d][over[d]])
+        if j == fa and "atom.element" in over:
+            el = A["atom.element"][over["atom.element"]]
+        atoms.append(Atom(el))
     if kind == "mol":
-        obj = Molecule(atoms, **mkw)
+        obj = Molecule(atoms)
         C = base_coords(1, na)[0]
         Q = base_charges(1, na)[0]
         if na:
@@ -163,9 +158,9 @@ def build(A, kind, shape, over, seed, tag=None):
             obj.atomic_charges = Q
     else:
         if na:
-            obj = ConformerEnsemble(atoms, n_conformers=nc, **mkw)
+            obj = ConformerEnsemble(atoms, n_conformers=nc)
         else:
-            obj = ConformerEnsemble(n_conformers=nc, n_atoms=0, **mkw)
+            obj = ConformerEnsemble(n_conformers=nc, n_atoms=0)
         C = base_coords(nc, na)
         Q = base_charges(nc, na)
         W = base_weights(nc)
@@ -179,17 +174,34 @@ def build(A, kind, shape, over, seed, tag=None):
         obj.coords = C
         obj.atomic_charges = Q
         obj.weights = W
-    for b in range(nb):
-        e1, e2 = BASE_ENDS[b]
-        kw = {}
-        if b == fb:
-            if "bond.ends" in over:
-                e1, e2 = A["bond.ends"][over["bond.ends"]]
-            for f in BOND_FIELDS:
-                d = "bond." + f
-                if d in over:
-                    kw[f] = _fresh(A[d][over[d]])
-        obj.connect(e1, e2, **kw)
+    # bonds: explicit Bond objects, appended in the given order and direction
+    if bonds is None:
+        blist = []
+        for b in range(nb):
+            e1, e2 = BASE_ENDS[b]
+            kw = {}
+            if b == fb:
+                if "bond.ends" in over:
+                    e1, e2 = A["bond.ends"][over["bond.ends"]]
+                for f in BOND_FIELDS:
+                    d = "bond." + f
+                    if d in over:
+                        kw[f] = _fresh(A[d][over[d]])
+            blist.append((e1, e2, kw))
+    else:
+        blist = [(e1, e2, {f: _fresh(A["bond." + f][v]) for f, v in (kw or {}).items()}) for e1, e2, kw in bonds]
+    for e1, e2, kw in blist:
+        obj.append_bond(Bond(obj.atoms[e1], obj.atoms[e2], **kw))
+    # atom fields of the focus atom and record-level fields: assigned after construction
+    if na:
+        for f in ATOM_FIELDS:
+            d = "atom." + f
+            if d in over and f != "element":
+                setattr(obj.atoms[fa], f, _fresh(A[d][over[d]]))
+    for f in ("name", "charge", "mult", "attrib"):
+        d = "mol." + f
+        if d in over:
+            setattr(obj, f, _fresh(A[d][over[d]]))
     if tag is not None:
         obj.name = f"{obj.name}{tag}"  # makes the stored record byte-unique for this case
     if kind == "conf":
@@ -328,7 +340,18 @@ V1_SKIP = {"atom.formal_charge", "atom.formal_spin", "atom.attrib", "bond.attrib
 def compare(exp, got, enc, conf_source=False):
     """-> list of (field, symptom) where what was read differs from what was written"""
     out = []
+    # a lost / extra atom or bond is one finding, not one per field of the record
+    skip = set()
+    for what, pre in (("atoms", "atom."), ("bonds", "bond.")):
+        ln = f"len({what})"
+        if ln in got and exp[ln] != got[ln]:
+            out.append((ln, f"{what[:-1]}-sequence:length-differs"))
+            skip |= {ln, f"n_{what}"} | {k for k in exp if k.startswith(pre)}
+            if what == "atoms":
+                skip |= {"coords.shape", "charges.shape", "coords.val", "charges.val"}
     for k in exp:
+        if k in skip:
+            continue
         if enc == "v1" and k in V1_SKIP:
             continue
         if k == "type":
@@ -468,7 +491,7 @@ def roundtrip_batch(libs, lib, enc, objs):
 # case generation
 # -------------------------------------------------------------------------------------------------
 def case_key(c):
-    return (c["kind"], tuple(c["shape"]), tuple(sorted(c["over"].items())))
+    return (c["kind"], tuple(c["shape"]), tuple(sorted(c["over"].items())), repr(c.get("bonds")))
 
 
 def gen_field_cases(A, thorough, seed):
@@ -523,6 +546,33 @@ def gen_field_cases(A, thorough, seed):
                     for v3 in A[d3]:
                         add("ens", (3, 2, 2), {d1: v1, d2: v2, d3: v3}, "3-way/bond")
     return list(cases.values())
+
+
+def gen_topology_cases(thorough):
+    """bond sequences the decoders must reproduce as they are: several bonds over one atom pair
+    (same direction and reversed, with different fields), a bond from an atom to itself, every order
+    and every direction of three bonds"""
+    S, L_, D = {"label": "C1"}, {"label": "space", "btype": "Ligand", "attrib": "flat"}, {"btype": "Double", "stereo": "E", "f_order": "1.5"}
+    topo = [
+        [[0, 1, S], [0, 1, L_]],
+        [[0, 1, S], [1, 0, L_]],
+        [[1, 0, {}], [1, 0, {}]],
+        [[0, 1, S], [1, 2, {}], [0, 1, L_]],
+        [[0, 1, S], [0, 1, L_], [1, 0, D]],
+        [[0, 0, S]],
+        [[0, 1, {}], [1, 1, L_]],
+        [[2, 2, {}], [2, 2, S]],
+    ]
+    pairs = [(0, 1), (1, 2), (0, 2)]
+    for perm in itertools.permutations(range(3)):
+        for flips in itertools.product((0, 1), repeat=3):
+            topo.append([[pairs[i][flips[n]], pairs[i][1 - flips[n]], {"label": ["C1", "space", "nonascii"][i]}] for n, i in enumerate(perm)])
+    cases = []
+    for bonds in topo:
+        na = 1 + max(max(b[0], b[1]) for b in bonds)
+        for kind, nc in (("mol", 1), ("ens", 2), ("conf", 2)):
+            cases.append({"kind": kind, "shape": [max(na, 2), 0, nc], "over": {}, "bonds": bonds, "tag": "bond-topology"})
+    return cases
 
 
 def gen_shape_cases(A, thorough):
@@ -583,7 +633,7 @@ def eval_cases(ctx, A, cases, seed, minimise=True):
             objs, exps = [], []
             for c in blk:
                 try:
-                    o = build(A, c["kind"], tuple(c["shape"]), c["over"], seed)
+                    o = build(A, c["kind"], tuple(c["shape"]), c["over"], seed, bonds=c.get("bonds"))
                     e = snapshot(o)
                 except Exception as ex:
                     raise HarnessError(f"cannot construct case {c}: {type(ex).__name__}: {ex}")
@@ -652,7 +702,10 @@ def judge(ctx, case, lib, exp, res, obj, mini=None):
 
 
 def _case(case, enc):
-    return {"mode": "roundtrip", "kind": case["kind"], "shape": case["shape"], "over": case["over"], "enc": enc, "tag": case.get("tag")}
+    d = {"mode": "roundtrip", "kind": case["kind"], "shape": case["shape"], "over": case["over"], "enc": enc, "tag": case.get("tag")}
+    if case.get("bonds") is not None:
+        d["bonds"] = case["bonds"]
+    return d
 
 
 class Minimiser:
@@ -669,7 +722,7 @@ class Minimiser:
         key = case_key(case)
         if key not in self.memo:
             try:
-                o = build(self.A, case["kind"], tuple(case["shape"]), case["over"], self.seed)
+                o = build(self.A, case["kind"], tuple(case["shape"]), case["over"], self.seed, bonds=case.get("bonds"))
                 exp = snapshot(o)
             except Exception:
                 self.memo[key] = set()
@@ -693,6 +746,13 @@ class Minimiser:
             for shape in (base, list(case["shape"])):
                 for v in self.A[d]:
                     yield {"kind": kind, "shape": list(shape), "over": {d: v}, "tag": "minimised"}
+        # a defect that needs two fields together (a value derived from another field): every pair
+        # of values of two of the overridden dimensions, in alphabet order
+        dims = sorted(case["over"])
+        for d1, d2 in itertools.combinations(dims, 2):
+            for v1 in self.A[d1]:
+                for v2 in self.A[d2]:
+                    yield {"kind": kind, "shape": list(base), "over": {d1: v1, d2: v2}, "tag": "minimised"}
 
     def smallest(self, case, lib, sig):
         for c in self.candidates(case):
@@ -1024,6 +1084,128 @@ def gen_ilv_cases(thorough):
             if len(ops) <= L - 1:
                 out.append({"lib": lib, "ops": ops, "buf": "default", "rev": True})
     return out
+
+
+# -------------------------------------------------------------------------------------------------
+# size classes: records around the thresholds of the storage format (msgpack bin8/16/32, str8/16/32,
+# array16/32, map16/32) and far above them; a fixed handful of objects, each big
+# -------------------------------------------------------------------------------------------------
+def size_catalog(thorough):
+    """name -> (library, encodings, builder)"""
+    C = {}
+
+    def mol_attrib(v):
+        def f():
+            m = Molecule([Atom("C"), Atom("H")])
+            m.coords = base_coords(1, 2)[0]
+            m.attrib = {"payload": v(), "after": 1}
+            return m
+
+        return f
+
+    def ens_block(na, nc):
+        def f():
+            e = ConformerEnsemble([Atom(BASE_EL[j % 3]) for j in range(na)], n_conformers=nc)
+            e.coords = (np.arange(nc * na * 3, dtype=np.float64).reshape((nc, na, 3)) % 1024) * 0.25
+            e.atomic_charges = (np.arange(nc * na, dtype=np.float64).reshape((nc, na)) % 64) * 0.125
+            e.weights = np.arange(nc, dtype=np.float64) * 0.5
+            return e
+
+        return f
+
+    def mol_atoms(na, nb=0):
+        def f():
+            m = Molecule([Atom(BASE_EL[j % 3]) for j in range(na)])
+            m.coords = (np.arange(na * 3, dtype=np.float64).reshape((na, 3)) % 1024) * 0.25
+            m.atomic_charges = (np.arange(na, dtype=np.float64) % 64) * 0.125
+            for j in range(nb):
+                m.append_bond(Bond(m.atoms[j % na], m.atoms[(j + 1) % na]))
+            return m
+
+        return f
+
+    both = ("v2", "v1")
+    # coordinate / charge blocks (bin items) around 64 KiB and 1 MiB
+    C["coords-block<64KiB(100x54)"] = ("clib", both, ens_block(100, 54))
+    C["coords-block>64KiB(100x60)"] = ("clib", both, ens_block(100, 60))
+    C["coords-block<1MiB(100x870)"] = ("clib", both, ens_block(100, 870))
+    C["coords-block>1MiB(100x900)"] = ("clib", both, ens_block(100, 900))
+    C["molecule-coords-block>64KiB(5462-atoms)"] = ("mlib", both, mol_atoms(5462))
+    for n in (255, 256, 65535, 65536, 2**20, 2**20 + 1) + ((2**24 + 1,) if thorough else ()):
+        C[f"attrib-bytes[{n}]"] = ("mlib", ("v2",), mol_attrib(lambda n=n: bytes(range(256)) * (n // 256) + bytes(n % 256)))
+    for n in (31, 32, 255, 256, 65535, 65536, 2**20 + 1):
+        C[f"attrib-str[{n}]"] = ("mlib", ("v2",), mol_attrib(lambda n=n: "aé"[: 1 + (n % 2)] * (n // (1 + (n % 2)))))
+    for n in (15, 16, 65535, 65536, 65537, 131073):
+        C[f"attrib-list[{n}]"] = ("mlib", ("v2",), mol_attrib(lambda n=n: list(range(n))))
+    for n in (15, 16, 32769) + ((65536, 65537) if thorough else ()):
+        C[f"attrib-map[{n}]"] = ("mlib", ("v2",), mol_attrib(lambda n=n: {f"k{i}": i for i in range(n)}))
+    C["name-str[65536]"] = ("mlib", both, lambda: _named(mol_atoms(2)(), "n" * 65536))
+    # array lengths: atoms / bonds
+    C["atoms[65537]"] = ("mlib", both, mol_atoms(65537))
+    if thorough:
+        C["atoms[131073]"] = ("mlib", both, mol_atoms(131073))
+        C["bonds[65537]"] = ("mlib", both, mol_atoms(3, 65537))
+        C["ensemble-atoms[65537]x2"] = ("clib", both, ens_block(65537, 2))
+        C["coords-block>16MiB(100x14000)"] = ("clib", both, ens_block(100, 14000))
+    return C
+
+
+def _named(o, name):
+    o.name = name
+    return o
+
+
+def eval_size(ctx, A, name, seed):
+    cat = size_catalog(True)
+    lib, encs, builder = cat[name]
+    libs = Libs(ctx.scratch)
+    obj = builder()
+    exp = snapshot(obj)
+    fails = {}
+    for enc in encs:
+        stage, val = roundtrip_batch(libs, lib, enc, [obj])[0]
+        if stage == "ok":
+            diffs = compare(exp, snapshot(val), enc)
+            fails[enc] = sorted({sym.split("[written=")[0] for _, sym in diffs})
+        else:
+            fails[enc] = [f"{stage}:{exc_sig(val)}"]
+    ctx.count(evaluations=len(encs), states=1, transitions=2 * len(encs), traces=len(encs))
+    ctx.outcome(("size", name, tuple(sorted((e, tuple(f)) for e, f in fails.items()))))
+    ctx.nontrivial(("size", name))
+    common = [x for x in fails[encs[0]] if all(x in fails[e] for e in encs)] if len(encs) > 1 else []
+    todo = [("any", x) for x in common] + [(e, x) for e in encs for x in fails[e] if x not in common]
+    for enc, sym in todo:
+        ctx.violation(
+            f"size|{lib}|enc={enc}|{name}|{sym}",
+            f"a record of size class {name} stored in a {enc if enc != 'any' else 'v2 and v1'} {lib}: {sym}",
+            {"mode": "size", "name": name, "enc": enc},
+            repro=size_repro(name, lib),
+        )
+
+
+def size_repro(name, lib):
+    L = ["import os, numpy as np, molli as ml", "from molli.chem import Atom", f"p = '/tmp/c01_size.{lib}'", "if os.path.exists(p): os.unlink(p)"]
+    if name.startswith("coords-block") or name.startswith("ensemble-atoms"):
+        import re
+
+        m = re.search(r"\((\d+)x(\d+)\)", name)
+        na, nc = (int(m.group(1)), int(m.group(2))) if m else (65537, 2)
+        L.append(f"obj = ml.ConformerEnsemble(['C'] * {na}, n_conformers={nc}); obj.coords = 1.0   # coords block: {na * nc * 12} bytes")
+    elif name.startswith("attrib-"):
+        kind, n = name[7:].split("[")[0], int(name.split("[")[1][:-1])
+        v = {"bytes": f"bytes({n})", "str": f"'x' * {n}", "list": f"list(range({n}))", "map": f"{{f'k{{i}}': i for i in range({n})}}"}[kind]
+        L.append(f"obj = ml.Molecule(['C', 'H']); obj.coords = 0.0; obj.attrib = {{'payload': {v}}}")
+    elif name.startswith("name-str"):
+        L.append("obj = ml.Molecule(['C', 'H'], name='n' * 65536); obj.coords = 0.0")
+    else:
+        n = int(name.split("[")[1].split("]")[0]) if "[" in name else 5462
+        if name.startswith("bonds"):
+            L.append(f"obj = ml.Molecule(['C', 'H', 'O']); obj.coords = 0.0\nfor j in range({n}): obj.append_bond(ml.chem.Bond(obj.atoms[j % 3], obj.atoms[(j + 1) % 3]))")
+        else:
+            L.append(f"obj = ml.Molecule(['C'] * {n}); obj.coords = 0.0")
+    cls = "MoleculeLibrary" if lib == "mlib" else "ConformerLibrary"
+    L += [f"lib = ml.{cls}(p, readonly=False)", "with lib.writing(): lib['k'] = obj", "with lib.reading(): back = lib['k']", "print(back, back.coords.shape, len(str(back.attrib)))"]
+    return "\n".join(L)
 
 
 # -------------------------------------------------------------------------------------------------
@@ -1684,14 +1866,12 @@ def repro_code(case, lib, enc):
             return f"ml.chem.{type(v).__name__}.{v.name}"
         return repr(v).replace("nan", "float('nan')").replace("inf", "float('inf')")
 
-    L = ["import os, numpy as np, molli as ml", "from molli.chem import Atom", "from molli.storage.ukvfile import UKVFile"]
-    L.append(f"# focus atom / bond / conformer: index seed % n (seed 0 -> 0) ; written with seed 0")
-    akw = ", ".join(f"{d[5:]}={val(d)}" for d in over if d.startswith("atom.") and d != "atom.element")
+    L = ["import os, numpy as np, molli as ml", "from molli.chem import Atom, Bond", "from molli.storage.ukvfile import UKVFile"]
+    L.append("# (written for seed 0: the focus atom / bond is index 0, the focus conformer the last one)")
     el0 = val("atom.element") if "atom.element" in over else "'C'"
-    atoms = [f"Atom({el0}{', ' + akw if akw else ''})"] + [f"Atom('{BASE_EL[j]}')" for j in range(1, na)]
-    mkw = "".join(f", {d[4:]}={val(d)}" for d in over if d.startswith("mol."))
+    atoms = [f"Atom({el0})"] + [f"Atom('{BASE_EL[j]}')" for j in range(1, na)]
     if case["kind"] == "mol":
-        L.append(f"obj = ml.Molecule([{', '.join(atoms[:na])}]{mkw})")
+        L.append(f"obj = ml.Molecule([{', '.join(atoms[:na])}])")
         if na:
             L.append(f"obj.coords = np.arange({na * 3}.).reshape({na}, 3); obj.atomic_charges = np.arange({na}.)")
             if "coords.val" in over:
@@ -1700,9 +1880,9 @@ def repro_code(case, lib, enc):
                 L.append(f"obj.atomic_charges[0] = {val('charges.val')}")
     else:
         if na:
-            L.append(f"obj = ml.ConformerEnsemble([{', '.join(atoms[:na])}], n_conformers={nc}{mkw})")
+            L.append(f"obj = ml.ConformerEnsemble([{', '.join(atoms[:na])}], n_conformers={nc})")
         else:
-            L.append(f"obj = ml.ConformerEnsemble(n_conformers={nc}, n_atoms=0{mkw})")
+            L.append(f"obj = ml.ConformerEnsemble(n_conformers={nc}, n_atoms=0)")
         L.append(f"obj.coords = np.arange({nc * na * 3}.).reshape({nc}, {na}, 3); obj.atomic_charges = np.arange({nc * na}.).reshape({nc}, {na}); obj.weights = np.arange({nc}.) + 1")
         if nc and na and "coords.val" in over:
             L.append(f"obj.coords[-1, 0, 0] = {val('coords.val')}")
@@ -1710,14 +1890,33 @@ def repro_code(case, lib, enc):
             L.append(f"obj.atomic_charges[-1, 0] = {val('charges.val')}")
         if nc and "weights.val" in over:
             L.append(f"obj.weights[-1] = {val('weights.val')}")
-    for b in range(nb):
-        e1, e2 = BASE_ENDS[b]
-        kw = ""
-        if b == 0:
-            if "bond.ends" in over:
-                e1, e2 = A["bond.ends"][over["bond.ends"]]
-            kw = "".join(f", {d[5:]}={val(d)}" for d in over if d.startswith("bond.") and d != "bond.ends")
-        L.append(f"obj.connect({e1}, {e2}{kw})")
+
+    def bval(f, v):
+        x = A["bond." + f][v]
+        import enum
+
+        return f"ml.chem.{type(x).__name__}.{x.name}" if isinstance(x, enum.Enum) else repr(x)
+
+    if case.get("bonds") is not None:
+        for e1, e2, kw in case["bonds"]:
+            k = "".join(f", {f}={bval(f, v)}" for f, v in (kw or {}).items())
+            L.append(f"obj.append_bond(Bond(obj.atoms[{e1}], obj.atoms[{e2}]{k}))")
+    else:
+        for b in range(nb):
+            e1, e2 = BASE_ENDS[b]
+            kw = ""
+            if b == 0:
+                if "bond.ends" in over:
+                    e1, e2 = A["bond.ends"][over["bond.ends"]]
+                kw = "".join(f", {d[5:]}={val(d)}" for d in over if d.startswith("bond.") and d != "bond.ends")
+            L.append(f"obj.append_bond(Bond(obj.atoms[{e1}], obj.atoms[{e2}]{kw}))")
+    for d in over:
+        if d.startswith("atom.") and d != "atom.element":
+            L.append(f"obj.atoms[0].{d[5:]} = {val(d)}")
+    for d in over:
+        if d.startswith("mol."):
+            L.append(f"obj.{d[4:]} = {val(d)}     # assigned after construction")
+    L.append("print('stored :', obj.name, obj.charge, obj.mult, obj.n_bonds, [(obj.atoms.index(b.a1), obj.atoms.index(b.a2), b.label) for b in obj.bonds])")
     if case["kind"] == "conf":
         L.append("obj = obj[obj.n_conformers - 1]   # a Conformer view")
     cls = "MoleculeLibrary" if lib == "mlib" else "ConformerLibrary"
@@ -1728,7 +1927,7 @@ def repro_code(case, lib, enc):
     L.append(f"    lib = ml.{cls}(p, readonly=False)")
     L.append("    with lib.writing(): lib['k'] = obj")
     L.append("    with lib.reading(): back = lib['k']")
-    L.append("    print(enc, back, back.coords.shape, back.atomic_charges.shape)")
+    L.append("    print(enc, 'read back:', back.name, back.charge, back.mult, back.n_bonds, [(back.atoms.index(b.a1), back.atoms.index(b.a2), b.label) for b in back.bonds], back.coords.shape)")
     return "\n".join(L)
 
 
@@ -1738,6 +1937,9 @@ def _part(ctx, part):
     kind, payload = part
     if kind == "cases":
         eval_cases(ctx, A, payload, ctx.seed)
+    elif kind == "size":
+        for name in payload:
+            eval_size(ctx, A, name, ctx.seed)
     elif kind == "multi":
         libs = Libs(ctx.scratch)
         for mc in payload:
@@ -1766,7 +1968,7 @@ def run(ctx):
     ctx.rule = (
         "bounded-exhaustive small-scope grammar: every field value alone and every pair of values of two different "
         "fields (atom, bond, molecule/ensemble records, coordinates/charges/weights value classes, conformer count), "
-        "every shape 0..3 atoms x 0..3 bonds x 0..3 conformers, Conformer views, every put/read order of 1..3 objects "
+        "every shape 0..3 atoms x 0..3 bonds x 0..3 conformers, bond topologies (parallel / reversed / self-loop bonds, every order and direction of 3 bonds), a layer of size classes around and above the format's 2^8 / 2^16 / 2^20 thresholds, Conformer views, every put/read order of 1..3 objects "
         "x handles x sessions, every string of {put, get of any stored key, contains/keys/len} up to length 6 (thorough 7) inside one writing session, 3 write-buffer settings, followed by a full read-back in the same session / a new session / a new handle, 2-3 libraries on different paths written with every interleaving of 2-3 puts each under 4 buffer settings, items()/values()/keys() passes advanced one next() at a time with every choice of disturbance (get, probe, nested pass, put) before each next, get / mutate the retrieved object in place / get again over 6 retrieval routes and 2 write-side routes; each case written to and read from real v2 and v1 MoleculeLibrary/ConformerLibrary files "
         "and compared field by field with a snapshot taken by the harness's own walker; a case is non-trivial when the "
         "object has >= 1 atom and >= 1 field differs from the constructor defaults (or >= 2 objects for sequences)"
@@ -1776,7 +1978,7 @@ def run(ctx):
         "attribute dictionaries use str keys and native msgpack types only (numpy arrays, integers >= 2**64 and non-str keys are not 'msgpack-able' in the sense of the quantifier)",
         "v1: compared on the fields of the v1 schema (no formal_charge/formal_spin/attrib of atoms, no attrib of bonds and molecules); a v1 library is a UKV file whose h1 header is b'ML10Library'",
         "a Conformer view stored in a MoleculeLibrary reads back as a Molecule with the conformer's fields",
-        "bonds never join an atom with itself; atoms of an ensemble are given through an atom list (the 0-atom ensemble through n_atoms=0)",
+        "objects are built by assigning record-level and atom fields after construction and by appending explicit Bond objects (never connect()), so that the stored object holds exactly the stated combination; bond sequences are compared in order and direction, including several bonds over one atom pair and a bond from an atom to itself; atoms of an ensemble are given through an atom list (the 0-atom ensemble through n_atoms=0)",
         "when v2 and v1 fail on the same case with the same symptom the violation is reported once with enc=any",
         "several library objects on different paths may be in writing() at the same time in one process (sessions nest per path), with any write buffer: afterwards each file holds exactly what was stored through its own handle",
         "a pass over items()/values()/keys() may be interleaved with other reads of the same handle; inserting a record during a pass may end that pass with RuntimeError (as for a dict - this is what the repaired tree does) but never hands out a wrong pair, and the record is stored",
@@ -1818,9 +2020,18 @@ def run(ctx):
     pk = {id(c) for c in picks}
     eval_cases(ctx, A, picks, ctx.seed)
     cases = [c for c in cases if id(c) not in pk]
+    # bond topologies: few, evaluated in the master in a fixed order (deterministic counterexample)
+    topo = gen_topology_cases(thorough)
+    eval_cases(ctx, A, topo, ctx.seed, minimise=False)
+    ctx.bound["bond_topology_cases"] = len(topo)
+    sizes = list(size_catalog(thorough))
+    ctx.bound["size_class_cases"] = sizes
     ctx.sample({"sequence": seqs[len(seqs) // 2]})
     nchunk = 64 if thorough else 16
-    parts = [("cases", cases[i::nchunk]) for i in range(nchunk)]
+    # the size layer first: few, big cases, each its own part
+    big = [n for n in sizes if any(t in n for t in ("atoms[", "bonds[", "16MiB", "2**24", "16777217"))]
+    parts = [("size", [n]) for n in big] + [("size", [n for n in sizes if n not in big])]
+    parts += [("cases", cases[i::nchunk]) for i in range(nchunk)]
     parts = [p for p in parts if p[1]]
     # interleavings: the short strings first, in the master, in a fixed order (a defect that shows in
     # a short string is then always kept with the same, shortest, counterexample); the rest in parts
@@ -1865,5 +2076,10 @@ def replay(ctx, case):
     if case.get("mode") == "reget":
         eval_reget(ctx, A, {"mode": "reget", "spec": case["spec"], "route": case["route"], "n": case.get("n", 0)}, ctx.seed)
         return
+    if case.get("mode") == "size":
+        eval_size(ctx, A, case["name"], ctx.seed)
+        return
     c = {"kind": case["kind"], "shape": case["shape"], "over": case["over"], "tag": case.get("tag") or "replay"}
+    if case.get("bonds") is not None:
+        c["bonds"] = [[b[0], b[1], dict(b[2] or {})] for b in case["bonds"]]
     eval_cases(ctx, A, [c], ctx.seed)
